@@ -22,6 +22,87 @@ CMDS = "<>+-.,[]"
 
 # ----------------------------------------------------------------------------- C12
 
+def dispatch_matches(body):
+    """byte matches of the in-place interpreter that are not nested inside an arm of another byte match: the command dispatch"""
+    def is_byte(m):
+        return any(a["pat"]["t"] == "PLit" and a["pat"]["lit"]["kind"] == "byte" for a in m["arms"])
+    ms = [m for m in walk_t(body, "Match") if is_byte(m)]
+    inner = set()
+    for m in ms:
+        for a in m["arms"]:
+            for x in walk_t(a["body"], "Match"):
+                if x is not m and is_byte(x):
+                    inner.add(id(x))
+    return [m for m in ms if id(m) not in inner]
+
+
+def assigns_to(node, name):
+    out = []
+    for n in walk(node):
+        if n.get("t") == "Assign" and path_name(strip_paren(n["left"])) == name:
+            out.append(n)
+        if n.get("t") == "Binary" and n["op"].endswith("=") and n["op"] not in ("==", "!=", "<=", ">=") and path_name(strip_paren(n["left"])) == name:
+            out.append(n)
+    return out
+
+
+def index_guards(ast, path, fn, res, rule, keyp):
+    """Every `a[i]` in fn (a, i plain locals) must be dominated by a test `i < a.len()` that is still valid: no assignment to i
+    between the test and the use, and no loop in between that changes i (a later iteration would use an unchecked index)."""
+    import pm
+    par = parents(fn)
+    n = 0
+    for ix in walk_t(fn["body"], "Index"):
+        a, i = path_name(strip_paren(ix["expr"])), path_name(strip_paren(ix["index"]))
+        w = where(path, ix, fn["name"])
+        n += 1
+        key = f"{keyp}|index|{n}"
+        if a is None or i is None:
+            r_ = strip_paren(ix["index"])
+            if a is not None and r_["t"] == "Range":
+                res.bad(rule, key, w, f"slice `{ast.src1(path, ix)}` is not analysed (a range that is out of bounds panics)")
+            else:
+                res.bad(rule, key, w, f"index expression `{ast.src1(path, ix)}` is not of the analysed form `local[local]` (an out-of-range index panics)")
+            continue
+        cur, ok, why = ix, False, f"`{a}[{i}]` is not inside a test `{i} < {a}.len()`"
+        child = ix
+        while id(cur) in par:
+            pn, k = par[id(cur)]
+            if pn["t"] == "Block":
+                # earlier statements of this block must not change i
+                idx_ = next((j for j, s_ in enumerate(pn["stmts"]) if s_ is cur), None)
+                if idx_ is None:
+                    idx_ = next((j for j, s_ in enumerate(pn["stmts"]) if any(x is child for x in walk(s_))), 0)
+                if any(assigns_to(s_, i) for s_ in pn["stmts"][:idx_]):
+                    why = f"`{i}` is changed between the test `{i} < {a}.len()` and the use `{a}[{i}]`"
+                    break
+            guard = None
+            if pn["t"] == "While" and k == "body":
+                guard = pn["cond"]
+            if pn["t"] == "If" and k == "then":
+                guard = pn["cond"]
+            if guard is not None:
+                conj = []
+                g_ = strip_paren(guard)
+                while g_["t"] == "Binary" and g_["op"] == "&&":
+                    conj.append(strip_paren(g_["right"]))
+                    g_ = strip_paren(g_["left"])
+                conj.append(g_)
+                if any(pm.match_expr(c_, "__v_i < __v_a.len()", {"__v_i": i, "__v_a": a}) or pm.match_expr(c_, "__v_a.len() > __v_i", {"__v_i": i, "__v_a": a}) for c_ in conj):
+                    ok = True
+                    break
+            if pn["t"] in ("While", "ForLoop", "Loop") and k == "body" and assigns_to(pn["body"], i):
+                why = f"`{a}[{i}]` is used inside a loop that changes `{i}` without re-testing `{i} < {a}.len()`"
+                break
+            if pn["t"] == "Closure":
+                why = "index inside a closure is not analysed"
+                break
+            child = cur
+            cur = pn
+        res.check(ok, rule, key, w, f"{fn['name']}: {why}: a source text can make this index panic")
+    return n
+
+
 def run_parse_rules(res, ast):
     res.rule("PARSE-CALLERS", "IrInterpreter/BcInterpreter/BaseJitCompiler(/LlvmJitCompiler)::create call "
              "ir::Program::parse on the unmodified `code` argument and propagate its error with `?`", floor=3, what="executors")
@@ -228,7 +309,7 @@ def run_parse_rules(res, ast):
         src_bytes = [k for k, v in inits.items() if v == "self.code.as_bytes()"]
         res.check(len(src_bytes) == 1, "COMMENT-INERT", f"{INPLACE}|execute_in|bytes", where(INPLACE, fn, "execute_in"),
                   "the in-place interpreter must scan `self.code.as_bytes()` (every byte of a multi-byte character is >= 0x80 and cannot alias a command)")
-        ms = [m for m in walk_t(body, "Match") if any(a["pat"]["t"] == "PLit" and a["pat"]["lit"]["kind"] == "byte" for a in m["arms"])]
+        ms = dispatch_matches(body)
         if len(ms) != 1:
             res.bad("COMMENT-INERT", f"{INPLACE}|execute_in|match", where(INPLACE, fn, "execute_in"), f"expected one byte dispatch, found {len(ms)}")
         else:
@@ -246,6 +327,13 @@ def run_parse_rules(res, ast):
             okb = scn is not None and src_bytes and inits.get(scn) == f"{src_bytes[0]}[pc]"
             res.check(okb, "COMMENT-INERT", f"{INPLACE}|execute_in|scrutinee", where(INPLACE, m, "execute_in"),
                       f"the dispatched value must be the raw byte `{src_bytes[0] if src_bytes else 'code_bytes'}[pc]` (no cast or decoding); found `{inits.get(scn)}`")
+        # no source text can make the interpreter panic: indices are tested, no unwrap/expect/panicking macro
+        res.rule("NO-PANIC", "in the in-place interpreter every index `bytes[i]` is dominated by a still-valid test `i < bytes.len()`, and "
+                 "there is no unwrap/expect/panicking macro: no source string can make it panic", floor=3, what="indices and calls")
+        index_guards(ast, INPLACE, fn, res, "NO-PANIC", f"{INPLACE}|execute_in")
+        pan = [m_["method"] for m_ in walk_t(body, "MethodCall") if m_["method"] in ("unwrap", "expect", "unwrap_unchecked")] + \
+            [m_["mac"]["name"] for m_ in walk_t(body, "MacroExpr") if m_["mac"]["name"] in ("panic", "unreachable", "unimplemented", "todo", "assert", "assert_eq")]
+        res.check(not pan, "NO-PANIC", f"{INPLACE}|execute_in|panicking", where(INPLACE, fn, "execute_in"), f"execute_in can panic through {pan}")
         rec = [c for c in walk_t(body, "MethodCall") if c["method"] == "execute_in"]
         res.check(not rec, "STACK-PAIR", f"{INPLACE}|execute_in|nonrec", where(INPLACE, fn, "execute_in"), "execute_in must not recurse")
     except Missing as mm:
@@ -335,7 +423,7 @@ def run_cmd_table(res, ast):
     except Missing as m:
         res.missing("CMD-TABLE", m)
         return
-    ms = [m for m in walk_t(f["node"]["body"], "Match") if any(a["pat"]["t"] == "PLit" and a["pat"]["lit"]["kind"] == "byte" for a in m["arms"])]
+    ms = dispatch_matches(f["node"]["body"])
     if len(ms) != 1:
         res.bad("CMD-TABLE", f"{INPLACE}|execute_in|match", where(INPLACE, f["node"], "execute_in"), "byte dispatch not found")
         return
